@@ -264,6 +264,10 @@ func (w *World) buildResponse(req *http.Request, a *Ans, now time.Time) (*http.R
 		add("Pragma", "no-cache")
 	}
 	date := now.Add(-time.Duration(a.Dsk) * time.Second)
+	if a.Dsk >= CAP {
+		// an origin clock that is centuries off: further back than a time.Duration can express
+		date = time.Date([]int{1066, 1583, 1700}[w.rnd.Intn(3)], time.March, 1, 12, 0, 0, 0, time.UTC)
+	}
 	if a.NoDate == 1 {
 		date = now
 		if a.DFmt == 3 { // a Date field nobody can parse is no Date
